@@ -234,6 +234,8 @@ def main():
     ap.add_argument("--check-seed", type=int, default=0)
     ap.add_argument("--min-passed", type=int, default=82 - 0)
     ap.add_argument("--list", action="store_true")
+    ap.add_argument("--retest", action="store_true", help="third pass: run the survivors of results.jsonl (other than weakened validators and changed "
+                    "defaults) once more against the SAME properties with the current harness (results3.jsonl)")
     ap.add_argument("--recheck", action="store_true", help="second pass: run the survivors of results.jsonl against ALL properties (results2.jsonl)")
     args = ap.parse_args()
     args.out = os.path.abspath(args.out)
@@ -273,6 +275,16 @@ def main():
         for m in muts:
             m["skip_props"] = list(surv[m["id"]].get("checks", {}).keys())
         args.props = ",".join(f"C{i:02d}" for i in range(1, 21))
+        args.max = len(muts)
+    if args.retest:
+        surv = {}
+        for l in open(resfile):
+            r = json.loads(l)
+            d = r.get("diff", "")
+            if r["status"] == "survived" and "def __init__" not in d and not ("check_" in d and r["desc"] in ("delete Expr statement", "const True->False", "const False->True")):
+                surv[r["id"]] = r
+        resfile = os.path.join(args.out, "results3.jsonl")
+        muts = [m for m in muts if m["id"] in surv]
         args.max = len(muts)
     if os.path.exists(resfile):
         for l in open(resfile):
